@@ -142,9 +142,37 @@ def shown_rule(rep, prog, oks):
     rep.floor("identification carriers rendered", 3, n)
 
 
+def rejection_rule(rep, prog, errs):
+    rid = rep.rule("R6", "every character string is an identification: no full-length frame of either carrier (type 1-4 squitter, BDS 2,0 reply) is rejected")
+    from ..ai.pathcond import facts_atoms
+    n = 0
+    for fcts, v in errs:
+        ids = decode.id_values(fcts, range(5))
+        carrier = None
+        if set(ids) & {17, 18}:
+            tc = decode.id_values(fcts, range(32, 37))
+            cap = decode.id_values(fcts, range(5, 8))
+            # the path must be about identification squitters only (and not sit behind the reserved-capability mis-seek, C04 R1d)
+            if tc and set(tc) <= {1, 2, 3, 4} and not set(cap) <= {1, 2, 3}:
+                carrier = "type %s squitter" % ",".join(str(x) for x in tc)
+        if carrier is None and ids and set(ids) <= {20, 21}:
+            if decode.id_values(fcts, range(32, 40)) == [0x20]:
+                carrier = "BDS 2,0 reply"
+        if carrier is None:
+            continue
+        n += 1
+        dep = sorted(a for a in facts_atoms(fcts) if 40 <= a < 88)
+        rep.instance(rid, "err|%s|%s" % (carrier, ids), sample={"carrier": carrier, "df": ids, "depends_on_character_bits": bool(dep)} if n <= 2 else None)
+        # a 14-byte buffer whose leading bits select one of the carriers has no legitimate way to be rejected
+        from .c02 import err_kind
+        rep.violation("R6", "rejected:%s" % carrier.split()[0], "a full-length %s (DF %s) can be rejected (%s%s): some character strings are not decoded at all"
+                      % (carrier, ",".join(str(x) for x in ids), err_kind(v), (", under a condition on the character bits %s" % rng_str(dep)) if dep else ""))
+
+
 def run(rep, tier, replay=None):
     prog = facts.load("std")
     run_, oks, errs = decode_paths(prog, 14)
+    rejection_rule(rep, prog, errs)
     chars_rule(rep, prog, oks)
     table_rule(rep, prog)
     category_rule(rep, prog, oks)
